@@ -355,6 +355,14 @@ class SubCtx:
     def check(self, ok, rule, construct, where="", detail="", key="", facts=None):
         return (self.holds if ok else self.violated)(rule, construct, where, detail, key)
 
+    def check3(self, state, rule, construct, where="", ok_detail="", bad_detail="", unknown_detail="", key="", facts=None):
+        if state is True:
+            self.holds(rule, construct, where, ok_detail, key)
+        elif state is False:
+            self.violated(rule, construct, where, bad_detail, key, facts)
+        else:
+            self.inconclusive(rule, construct, where, unknown_detail or "shape not recognised", key)
+
     def count(self, *a, **k):
         self.ctx.count(*a, **k)
 
